@@ -156,6 +156,7 @@ type rig struct {
 	peerWG   sync.WaitGroup
 	cancel   context.CancelFunc
 	lockLeft bool // finish: the output lock could not be taken
+	closed   bool
 
 	// the closing tag at the connection: write attempts (whether or not they
 	// succeed), bytes the session wrote after the first attempt, and the fault:
@@ -322,6 +323,10 @@ func (r *rig) finish() (wire, residual []byte) {
 }
 
 func (r *rig) close() {
+	if r.closed {
+		return
+	}
+	r.closed = true
 	r.watch.Store(false)
 	r.resume()
 	if r.cancel != nil {
